@@ -131,6 +131,7 @@ func (s *Protocol) Invoke(ctx context.Context, req []byte) (rsp []byte) {
 				}
 				// execute business server
 				err = s.dispatcher.Dispatch(ctx, s.serverImp, &reqPackage, &rspPackage, s.withContext)
+				dispatchErr := err
 				// execute post server filters
 				for i, v := range s.app.allFilters.postSfs {
 					err = v(ctx, s.dispatcher.Dispatch, s.serverImp, &reqPackage, &rspPackage, s.withContext)
@@ -138,6 +139,8 @@ func (s *Protocol) Invoke(ctx context.Context, req []byte) (rsp []byte) {
 						TLOG.Errorf("Post filter error, No.%v, err: %v", i, err)
 					}
 				}
+				// like on the client side, post filters observe the call: its outcome is the implementation's
+				err = dispatchErr
 			}
 			if err != nil {
 				TLOG.Errorf("RequestID:%d, Found err: %v", reqPackage.IRequestId, err)
